@@ -174,46 +174,7 @@ ARGS_IGNORABLE = {
 }
 
 
-def _leaves(body) -> bool:
-    return bool(body) and isinstance(body[-1], (ast.Return, ast.Raise, ast.Continue))
-
-
-def _chain(ifnode):
-    """[(test, body)] of an if / elif chain and its final else body (or None)."""
-    arms, cur = [], ifnode
-    while True:
-        arms.append((cur.test, cur.body))
-        if len(cur.orelse) == 1 and isinstance(cur.orelse[0], ast.If):
-            cur = cur.orelse[0]
-            continue
-        return arms, (cur.orelse or None)
-
-
-def _guards(node, fn):
-    """Path condition of ``node``: tests of enclosing if / elif arms (negated for the arms skipped), plus, for every
-    earlier sibling if / elif chain all of whose arms leave the function, the negation of each of its tests."""
-    out = []
-    child, p = node, getattr(node, '_parent', None)
-    while p is not None:
-        if isinstance(p, ast.If):
-            if any(child is s_ for s_ in p.body):
-                out.append(norm(p.test))
-            elif any(child is s_ for s_ in p.orelse):
-                out.append(f'not ({norm(p.test)})')
-        for fld in ('body', 'orelse', 'finalbody'):
-            blk = getattr(p, fld, None)
-            if isinstance(blk, list) and any(child is s_ for s_ in blk):
-                for s_ in blk:
-                    if s_ is child:
-                        break
-                    if isinstance(s_, ast.If):
-                        arms, els = _chain(s_)
-                        if all(_leaves(b) for _, b in arms) and els is None:
-                            out.extend(f'not ({norm(t)})' for t, _ in arms)
-        if p is fn:
-            break
-        child, p = p, getattr(p, '_parent', None)
-    return out
+from sa.astutil import path_guards as _guards
 
 
 def _subhint_soundness(ctx, repo):
